@@ -1,7 +1,7 @@
 from props.common import *
 def plan(ctx):
     obs = []
-    for name, defs in (("sealed", {}),):
+    for name, defs in (("sealed", {}), ("sealed-pay16", {"PAY": 16})):
         obs.append(Ob(id=f"twin-{name}", harness="c11.c", defs=defs, units=uf_units(), unwind=10,
                       unwindset={"main.0": 10, "main.1": 10, "main.2": 10, "main.3": 10}, timeout=600, mem_gb=6,
                       sample={"symbolic": "84 bytes of an opposite-endian fragment, 6 checksum values; native twin derived by field swap",
